@@ -32,6 +32,7 @@ func checkC15(p *Prog, l *Ledger) {
 	checkPrintClause(cs, l, "C15/S1-one-line")
 	// ---- S2
 	checkTextSites(p, l)
+	checkNoSecondNumberText(p, l, "C15/S2-text-function/one-routine")
 	// what `+` splices in for a text operand is that text itself, and for a number the %v rendering: the `+` row of
 	// C02's operator table (text(left) + text(right), operands unchanged)
 	l.AsOnlyWhere(map[string]string{"C02/I1-operator-table": "C15/S3-concatenation-operands"}, func(o *Obligation) bool { return o.Construct == "Binary#PLUS" }, func() { checkC02(p, l) })
@@ -59,6 +60,43 @@ func checkC15(p *Prog, l *Ledger) {
 		l.Discharge("C15/S3-strings-in-containers", "universe:string", "", "the only string representation is Go string: %v shows its characters, also inside arrays and objects", true)
 	} else {
 		l.Violate("C15/S3-strings-in-containers", "universe:string", "", "string values have representations "+strings.Join(reps, ", ")+": a []rune inside a printed array shows as code points")
+	}
+}
+
+// checkNoSecondNumberText: no function of the module outside the text functions turns a number into text with a
+// strconv routine — a parser that joins `"n=" + 1234567` at parse time with FormatFloat(…, 'f', …) spells the number
+// differently from what `+` and দেখাও produce at run time (1.234567e+06).
+func checkNoSecondNumberText(p *Prog, l *Ledger, rule string) {
+	n := 0
+	for _, fn := range p.ModuleFuncs() {
+		instrsOf(fn, func(in ssa.Instruction) {
+			c, ok := in.(ssa.CallInstruction)
+			if !ok {
+				return
+			}
+			sc := c.Common().StaticCallee()
+			if sc == nil || fnPkgPath(sc) != "strconv" {
+				return
+			}
+			name := sc.Name()
+			if !(strings.HasPrefix(name, "Format") || strings.HasPrefix(name, "Append") || name == "Itoa") {
+				return
+			}
+			numeric := false
+			for i := 0; i < sc.Signature.Params().Len(); i++ {
+				if b, ok := sc.Signature.Params().At(i).Type().Underlying().(*types.Basic); ok && b.Info()&types.IsNumeric != 0 && (i == 0 || (i == 1 && strings.HasPrefix(name, "Append"))) {
+					numeric = true
+				}
+			}
+			if !numeric {
+				return
+			}
+			n++
+			l.Violate(rule, p.FuncKey(fn)+"#"+name, p.InstrPos(in), "a number is turned into text with strconv."+name+": a second number-to-text routine beside fmt %v — the same number is spelt differently depending on which path produced the text")
+		})
+	}
+	if n == 0 {
+		l.Discharge(rule, "module", "", "no strconv number formatter anywhere in the module: fmt %v is the only number-to-text routine", true)
 	}
 }
 
